@@ -17,6 +17,34 @@ import (
 
 type kase struct {
 	Data []byte `json:"data"`
+	// Next: a later input; the results for Data are inspected again after the
+	// calls for Next (results must not share storage with later calls)
+	Next []byte `json:"next,omitempty"`
+	Seq  bool   `json:"sequence,omitempty"`
+}
+
+// checkSequence: results obtained for d must be unchanged after the same
+// functions were called for next.
+func checkSequence(d, next []byte) []kit.V {
+	var vs []kit.V
+	p := try(func() {
+		q, qerr := txtar.Quote(d)
+		u, _ := txtar.Unquote(q)
+		f := txtar.Format(&txtar.Archive{Files: []txtar.File{{Name: "f", Data: d}}})
+		qc, uc, fc := append([]byte(nil), q...), append([]byte(nil), u...), append([]byte(nil), f...)
+		q2, _ := txtar.Quote(next)
+		txtar.Unquote(q2)
+		txtar.Format(&txtar.Archive{Files: []txtar.File{{Name: "g", Data: next}}})
+		if qerr == nil && (!bytes.Equal(q, qc) || !bytes.Equal(u, uc)) || !bytes.Equal(f, fc) {
+			vs = append(vs, kit.V{
+				Key:  "result-changed-by-later-call data=" + kit.Q(d),
+				What: fmt.Sprintf("Quote/Unquote/Format results for %q (%q, %q, %q) read %q, %q, %q after the same functions were called for %q", d, qc, uc, fc, q, u, f, next),
+				Case: kase{Data: append([]byte(nil), d...), Next: append([]byte(nil), next...), Seq: true},
+			})
+		}
+	})
+	_ = p
+	return vs
 }
 
 func fixNL(d []byte) []byte {
@@ -50,7 +78,7 @@ func printable(d []byte) bool {
 
 func checkData(d []byte) []kit.V {
 	var vs []kit.V
-	c := kase{append([]byte(nil), d...)}
+	c := kase{Data: append([]byte(nil), d...)}
 	add := func(class, what string) {
 		vs = append(vs, kit.V{Key: class + " data=" + kit.Q(d), What: what, Case: c})
 	}
@@ -109,7 +137,19 @@ func main() {
 		if err := json.Unmarshal(raw, &c); err != nil {
 			kit.Harness("bad case: %v", err)
 		}
+		if c.Seq {
+			return checkSequence(c.Data, c.Next)
+		}
 		return checkData(c.Data)
+	}
+	r.ConcurrentReplay = true
+	r.Noise = func(i int) {
+		d := []byte(fmt.Sprintf("noise %d\n-- m%d --\n>x\n", i, i%7))
+		txtar.NeedsQuote(d)
+		if q, err := txtar.Quote(d); err == nil {
+			txtar.Unquote(q)
+		}
+		txtar.Parse(txtar.Format(&txtar.Archive{Files: []txtar.File{{Name: "n", Data: d}}}))
 	}
 	r.MaybeReplay()
 	maxLen := 9
@@ -135,6 +175,12 @@ func main() {
 		vs := checkData(s)
 		for _, v := range vs {
 			r.Violation(v.Key, v.What, v.Case)
+		}
+		if n%257 == 0 && len(s) > 1 {
+			// results for this input must survive calls for another one
+			for _, v := range checkSequence(s, append([]byte("-- m --\n>"), s[1:]...)) {
+				r.Violation(v.Key, v.What, v.Case)
+			}
 		}
 		if len(vs) == 0 {
 			if txtar.NeedsQuote(s) {
